@@ -81,7 +81,7 @@ class Ev:
             e = find_const("src/constants.rs", name)
             if e is None: raise KeyError(name)
             return Ev("src/constants.rs").ev(e)
-        return self.ev(e)
+        return Ev(self.path).ev(e)
     def ev(self, e):
         e = e.strip()
         m = re.fullmatch(r"\*?b\"((?:[^\"\\]|\\.)*)\"", e)
